@@ -138,6 +138,7 @@ impl<'a> Machine<'a> {
                 Ok(false)
             }
             syn::Pat::Paren(p) => self.pat_matches(&p.pat, v),
+            syn::Pat::Type(t) => self.pat_matches(&t.pat, v),
             syn::Pat::Reference(r) => self.pat_matches(&r.pat, v),
             syn::Pat::Path(p) => {
                 let name = sm::tsc(&p.path);
@@ -388,7 +389,38 @@ impl<'a> Machine<'a> {
             syn::Expr::Lit(l) => lit_value(&l.lit),
             syn::Expr::Paren(p) => self.eval(&p.expr),
             syn::Expr::Group(p) => self.eval(&p.expr),
-            syn::Expr::Try(t) => self.eval(&t.expr),
+            syn::Expr::Try(t) => {
+                let v = self.eval(&t.expr)?;
+                match &v {
+                    V::Enum(e) if e.starts_with("Err(") => {
+                        self.returning = Some(v);
+                        Err(RETURN_SIGNAL.to_string())
+                    }
+                    V::Opt(None) => {
+                        self.returning = Some(v);
+                        Err(RETURN_SIGNAL.to_string())
+                    }
+                    V::Opt(Some(inner)) => Ok((**inner).clone()),
+                    _ => Ok(v),
+                }
+            }
+            syn::Expr::Range(r) => {
+                let lo = match &r.start {
+                    Some(e) => self.eval(e)?,
+                    None => return Err("open range".into()),
+                };
+                let hi = match &r.end {
+                    Some(e) => self.eval(e)?,
+                    None => return Err("open range".into()),
+                };
+                match (lo, hi) {
+                    (V::Int(a), V::Int(b)) if b - a < 100_000 => {
+                        let b = if matches!(r.limits, syn::RangeLimits::Closed(_)) { b + 1 } else { b };
+                        Ok(V::List((a..b).map(V::Int).collect()))
+                    }
+                    (a, b) => Err(format!("range {:?}..{:?}", a, b)),
+                }
+            }
             syn::Expr::Reference(r) => self.eval(&r.expr),
             syn::Expr::Block(b) => self.eval_block(&b.block),
             syn::Expr::Path(p) => {
@@ -400,7 +432,11 @@ impl<'a> Machine<'a> {
                         return Ok(V::Opt(None));
                     }
                 }
-                Ok(V::Enum(sm::tsc(&p.path)))
+                let txt = sm::tsc(&p.path);
+                if txt == "char::REPLACEMENT_CHARACTER" || txt.ends_with("::char::REPLACEMENT_CHARACTER") {
+                    return Ok(V::Char(0xFFFD));
+                }
+                Ok(V::Enum(txt))
             }
             syn::Expr::Tuple(t) => {
                 let mut v = vec![];
@@ -455,6 +491,11 @@ impl<'a> Machine<'a> {
                 let compound = match &b.op {
                     syn::BinOp::AddAssign(_) => Some('+'),
                     syn::BinOp::SubAssign(_) => Some('-'),
+                    syn::BinOp::MulAssign(_) => Some('*'),
+                    syn::BinOp::ShlAssign(_) => Some('<'),
+                    syn::BinOp::ShrAssign(_) => Some('>'),
+                    syn::BinOp::BitOrAssign(_) => Some('|'),
+                    syn::BinOp::BitAndAssign(_) => Some('&'),
                     _ => None,
                 };
                 if let Some(op) = compound {
@@ -462,7 +503,16 @@ impl<'a> Machine<'a> {
                     let cur = self.get(&k).ok_or_else(|| format!("compound assignment to unbound `{}`", k))?;
                     let r = self.eval(&b.right)?;
                     let nv = match (cur, r) {
-                        (V::Int(a), V::Int(c)) => V::Int(if op == '+' { a + c } else { a - c }),
+                        (V::Int(a), V::Int(c)) => V::Int(match op {
+                            '+' => a + c,
+                            '-' => a - c,
+                            '*' => a * c,
+                            '<' if (0..64).contains(&c) => a << c,
+                            '>' if (0..64).contains(&c) => a >> c,
+                            '|' => a | c,
+                            '&' => a & c,
+                            _ => return Err("shift amount".into()),
+                        }),
                         (a, c) => return Err(format!("compound assignment on {:?} {:?}", a, c)),
                     };
                     self.assign(&k, nv);
@@ -499,6 +549,11 @@ impl<'a> Machine<'a> {
                             syn::BinOp::Mul(_) => V::Int(a * c),
                             syn::BinOp::Div(_) if c != 0 => V::Int(a / c),
                             syn::BinOp::Rem(_) if c != 0 => V::Int(a % c),
+                            syn::BinOp::Shl(_) if (0..64).contains(&c) => V::Int(a << c),
+                            syn::BinOp::Shr(_) if (0..64).contains(&c) => V::Int(a >> c),
+                            syn::BinOp::BitOr(_) => V::Int(a | c),
+                            syn::BinOp::BitAnd(_) => V::Int(a & c),
+                            syn::BinOp::BitXor(_) => V::Int(a ^ c),
                             other => return Err(format!("operator {}", sm::ts(other))),
                         })
                     }
@@ -577,6 +632,12 @@ impl<'a> Machine<'a> {
                 if f == "Ok" && args.len() == 1 {
                     return Ok(args[0].clone());
                 }
+                if (f == "char::from_u32" || f == "std::char::from_u32" || f == "core::char::from_u32") && args.len() == 1 {
+                    if let V::Int(x) = &args[0] {
+                        let ok = (0..=0x10FFFF).contains(x) && !(0xD800..=0xDFFF).contains(x);
+                        return Ok(V::Opt(if ok { Some(Box::new(V::Char(*x as u32))) } else { None }));
+                    }
+                }
                 if let Some(name) = f.rsplit("::").next() {
                     if let Some(b) = self.opaque.get(name) {
                         return Ok(V::Bool(*b));
@@ -627,6 +688,8 @@ impl<'a> Machine<'a> {
                             ("is_some_and", V::Opt(Some(inner))) => return self.call_closure(c, &inner.clone()),
                             ("is_ok_and", _) if is_err => return Ok(V::Bool(false)),
                             ("is_ok_and", v) => return self.call_closure(c, &v.clone()),
+                            ("and_then", V::Opt(None)) => return Ok(V::Opt(None)),
+                            ("and_then", V::Opt(Some(inner))) => return self.call_closure(c, &inner.clone()),
                             ("map", V::Opt(None)) => return Ok(V::Opt(None)),
                             ("map", V::Opt(Some(inner))) => {
                                 let r = self.call_closure(c, &inner.clone())?;
@@ -641,6 +704,8 @@ impl<'a> Machine<'a> {
                 }
                 if mc.args.is_empty() {
                     match (&recv, m.as_str()) {
+                        (V::Opt(Some(inner)), "unwrap") => return Ok((**inner).clone()),
+                        (V::Opt(None), "unwrap") => return Err("unwrap of None: the interpreted code panics".into()),
                         (V::Opt(o), "is_some") => return Ok(V::Bool(o.is_some())),
                         (V::Opt(o), "is_none") => return Ok(V::Bool(o.is_none())),
                         (V::List(v), "next") => return Ok(V::Opt(v.first().cloned().map(Box::new))),
@@ -679,6 +744,24 @@ impl<'a> Machine<'a> {
                 let mut args = vec![];
                 for a in &mc.args {
                     args.push(self.eval(a)?);
+                }
+                match (&recv, m.as_str(), args.first()) {
+                    (V::Char(c), "to_digit", Some(V::Int(radix))) => {
+                        let d = char::from_u32(*c).and_then(|ch| ch.to_digit(*radix as u32));
+                        return Ok(V::Opt(d.map(|d| Box::new(V::Int(d as i128)))));
+                    }
+                    (V::Char(c), "is_digit", Some(V::Int(radix))) => {
+                        return Ok(V::Bool(char::from_u32(*c).map_or(false, |ch| ch.is_digit(*radix as u32))));
+                    }
+                    (V::Opt(Some(inner)), "ok_or", Some(_)) | (V::Opt(Some(inner)), "unwrap_or", Some(_)) => return Ok((**inner).clone()),
+                    (V::Opt(None), "ok_or", Some(e)) => {
+                        return Ok(match e {
+                            V::Enum(t) => V::Enum(format!("Err({})", t)),
+                            other => V::Enum(format!("Err({:?})", other)),
+                        })
+                    }
+                    (V::Opt(None), "unwrap_or", Some(d)) => return Ok(d.clone()),
+                    _ => {}
                 }
                 if let (V::List(a), "chain", Some(V::List(b))) = (&recv, m.as_str(), args.first()) {
                     let mut v = a.clone();
